@@ -141,6 +141,7 @@ fn c13_l2_merge_saturates() {
 }
 
 //@ prop: C13
+//@ also: C02 C09
 //@ drives: PrcBitTable::minimizer
 //@ bound: arbitrary table with lanes <= 2^28-1, every max_p in 0..=14
 //@ asserts: the returned parameter is admissible (<= max_p), the returned cost is its lane, and no admissible parameter has a smaller lane (ties may resolve either way)
